@@ -36,3 +36,38 @@ Proof.
   split; [vm_compute; intros H; discriminate H|vm_compute; reflexivity].
 Qed.
 Print Assumptions C10_original_reverse_ff_slice_refuted.
+
+(** ** The refinement theorem for the quiescent sentence (IScanProofs): on every store reached by puts and
+    removes, for every interval (all endpoint kinds, keys of any length) and both directions, the cursor driven
+    to its end delivers exactly the interval's entries -- ascending left-to-right, descending right-to-left --
+    each with its value and with full_key = the entry's key; it rejects exactly what scan rejects. *)
+From Yk Require Import KeyProofs TreeDefs ScanDefs SpecDefs IScanDefs StoreProofs ScanProofs IScanProofs.
+
+Theorem C10_cursor_is_interval_enumeration : forall ctr tr a,
+  WF_store ctr tr -> iscan_inv tr -> bytes (ia_l a) -> bytes (ia_r a) ->
+  exists st kvs cbs, iscan_all tr a = Some (st, kvs, cbs) /\
+    match iscan_validate a with
+    | Some s => st = s /\ kvs = []
+    | None => st = St_OK /\ map (fun kv => (fst kv, abs_value (snd kv))) kvs = spec_iscan_list (abs_tree tr) a
+    end.
+Proof. exact iscan_refines_inv. Qed.
+Print Assumptions C10_cursor_is_interval_enumeration.
+
+(** the side invariant holds initially and is preserved by the store operations *)
+Theorem C10_iscan_inv_reachable :
+  iscan_inv null_tree /\ (forall id, iscan_inv (empty_tree id)) /\
+  (forall ctr tr k v unique tr' po ctr',
+     WF_store ctr tr -> bytes k -> put tr k v unique ctr = Some (tr', po, ctr') -> iscan_inv tr -> iscan_inv tr') /\
+  (forall tr k tr' ro, remove tr k = Some (tr', ro) -> iscan_inv tr -> iscan_inv tr').
+Proof.
+  split; [exact iscan_inv_null|]. split; [exact iscan_inv_empty|]. split; [exact put_iscan_inv|exact remove_iscan_inv].
+Qed.
+Print Assumptions C10_iscan_inv_reachable.
+
+(** the cursor rejects exactly the argument combinations scan rejects (without scan's right-to-left restriction) *)
+Theorem C10_validate : forall a,
+  (iscan_validate a = None <-> spec_scan_args_ok (iscan_to_scan a) = true) /\
+  (spec_scan_args_ok (iscan_to_scan a) = false -> iscan_validate a = Some St_ERR_BAD_USAGE) /\
+  (forall s, iscan_validate a = Some s -> s = St_ERR_BAD_USAGE).
+Proof. exact iscan_validate_spec. Qed.
+Print Assumptions C10_validate.
